@@ -477,20 +477,35 @@ impl ConstructibleDb {
             if component_db.lifecycle(component_id) != Lifecycle::Singleton {
                 continue;
             }
-            let component = component_db.hydrated_component(component_id, computation_db);
-            let component_scope = component_db.scope_id(component_id);
-            for input_type in component.input_types() {
-                if let Some((input_constructor_id, _)) =
-                    self.get(component_scope, input_type, component_db.scope_graph())
-                    && component_db.lifecycle(input_constructor_id) == Lifecycle::RequestScoped
-                {
-                    Self::singleton_must_not_depend_on_request_scoped(
-                        component_id,
-                        input_constructor_id,
-                        component_db,
-                        computation_db,
-                        diagnostics,
-                    )
+            // Transient dependencies are built on the spot, while the application state is being
+            // assembled: their own dependencies must not be request-scoped either.
+            let mut visited = BTreeSet::new();
+            let mut stack = vec![component_id];
+            while let Some(current_id) = stack.pop() {
+                if !visited.insert(current_id) {
+                    continue;
+                }
+                let component = component_db.hydrated_component(current_id, computation_db);
+                let component_scope = component_db.scope_id(current_id);
+                for input_type in component.input_types() {
+                    let Some((input_constructor_id, _)) =
+                        self.get(component_scope, input_type, component_db.scope_graph())
+                    else {
+                        continue;
+                    };
+                    match component_db.lifecycle(input_constructor_id) {
+                        Lifecycle::RequestScoped => {
+                            Self::singleton_must_not_depend_on_request_scoped(
+                                component_id,
+                                input_constructor_id,
+                                component_db,
+                                computation_db,
+                                diagnostics,
+                            )
+                        }
+                        Lifecycle::Transient => stack.push(input_constructor_id),
+                        Lifecycle::Singleton => {}
+                    }
                 }
             }
         }
